@@ -37,6 +37,8 @@ def build(check, tier, seed, level, agg, meta, rule, probes_expected,
             'keys_compared_across_hashseeds': meta['crossenv_compared'],
             'differences': meta['crossenv_diffs']},
         'workers': meta['workers'],
+        'slowest_runs': sorted(agg.slow, reverse=True)[:8],
+        'phase_end_times_s': meta.get('phases'),
         'runs_skipped_by_wall_cap': meta['skipped'],
         'known_finding_hits': meta['known_hits'],
         'components': real_vs_stub,
